@@ -1188,6 +1188,13 @@ def _run_star(case):
             # the convolution then runs in float32: peaks within ~1e-7 (relative) of the threshold or of a tied
             # neighbour may legitimately differ; judged only when the same sources were selected
             if len(rows_d) == len(rows_0):
+                if 'pa' in F.cols and len(rows_d):
+                    # the position angle is defined modulo 180 deg: 0.0 and 180.0 are the same orientation (seen at
+                    # thorough seed 5: a source whose float64 pa is 180.0 comes out as 0.0 from the float32 image)
+                    j = list(F.cols).index('pa')
+                    rows_d = np.array(rows_d, float, copy=True)
+                    with np.errstate(invalid='ignore'):
+                        rows_d[:, j] -= 180.0 * np.round((rows_d[:, j] - rows_0[:, j]) / 180.0)
                 case.close(rows_d, rows_0, 'star_same_table_for_float32_image', rtol=2e-4, atol=2e-4, mech=md)
             else:
                 case.note('float32_image_selects_other_sources_not_judged')
